@@ -25,16 +25,17 @@ TRUSTED = [
     "contig='*' yields the unplaced unmapped records)",
     "supplied as data by the harness, not modelled: the variant table (VcfReader(phases=True)) and the read sets with the "
     "alleles/qualities detected by the real ReadSetReader (whatshap/variants.py), obtained by calling the same functions "
-    "run_haplotag calls; the iteration order of the python set shared_samples (PYTHONHASHSEED=0)",
+    "run_haplotag calls",
     "canonicalisation of BAM records into integers (all fields and all tags other than HP/PS/PC, tag order ignored) by the harness",
-    "free choice left open by the code (python set of Read objects, F7): which of several phase sets with equal maximal score "
-    "is reported for a BX group of >= 2 reads; such runs are compared through L1 only",
+    "the order in which the real code processes the samples is recorded by the driver (wrapper around PhasedInputReader.read) "
+    "and handed to the model as data",
 ]
 ASSUMPTIONS = [
     "the BAM is coordinate sorted and indexed (required by the tool), read names are not shared between samples, BX barcodes "
     "are not shared between samples",
-    "stream conservation is claimed for runs without --regions and for the repaired region rule; for the current code with "
-    "--regions only when regions are sorted, pairwise disjoint and no alignment overlaps two regions",
+    "stream conservation is claimed for every run of the repaired region rule (run_fixed, what /repo implements after the "
+    "fix); for the old rule (run_current, kept for the _refuted theorems) with --regions only when regions are sorted, pairwise "
+    "disjoint and no alignment overlaps two regions",
     "swap symmetry theorem: the permuted phase set id occurs in one sample only, or the permutation is applied to that id in "
     "all samples",
 ]
@@ -64,8 +65,11 @@ Definition L1swap (c : ccase) :=
 Definition m_cur (c : ccase) := oout_eqb (run_current (k_cfg c) (k_chroms c) (k_user c) (k_tail c)) (out_pairs c).
 Definition m_fix (c : ccase) := oout_eqb (run_fixed (k_cfg c) (k_chroms c) (k_user c) (k_tail c)) (out_pairs c).
 Definition NOTAMB (c : ccase) := negb (ambiguous (k_cfg c) (k_chroms c)).
-Definition L2 (c : ccase) := negb (k_ok c) || ambiguous (k_cfg c) (k_chroms c) || m_cur c || m_fix c.
-Definition CURRENT (c : ccase) := negb (k_ok c) || m_cur c || negb (m_fix c).
+(* /repo carries the repaired region rule and iterates the read group as a list (read first, then the
+   others in read-set order, as the model does): L2 demands run_fixed exactly.  run_current is kept for
+   the _refuted witnesses; OLDRULE only tallies runs that still match the old rule and not the new one. *)
+Definition L2 (c : ccase) := negb (k_ok c) || m_fix c.
+Definition OLDRULE (c : ccase) := negb (k_ok c) || m_fix c || negb (m_cur c).
 Definition line_eqb (x y : Z * option Z * option Z * Z) :=
   (fst (fst (fst x)) =? fst (fst (fst y))) && oz_eqb (snd (fst (fst x))) (snd (fst (fst y)))
   && oz_eqb (snd (fst x)) (snd (fst y)) && (snd x =? snd y).
@@ -73,19 +77,7 @@ Definition lines_eqb := list_eqb line_eqb.
 Definition L2list (c : ccase) :=
   match k_list c with
   | None => true
-  | Some l =>
-      let pf := if m_cur c then plan_current else plan_fixed in
-      negb (k_ok c) || ambiguous (k_cfg c) (k_chroms c)
-      || lines_eqb l (list_run list_entry pf (k_cfg c) (k_chroms c) (k_user c))
-      || lines_eqb l (list_run list_entry_fixed pf (k_cfg c) (k_chroms c) (k_user c))
-  end.
-Definition LEAK (c : ccase) :=       (* false iff the list matches only the repaired list rule *)
-  match k_list c with
-  | None => true
-  | Some l =>
-      let pf := if m_cur c then plan_current else plan_fixed in
-      negb (k_ok c) || lines_eqb l (list_run list_entry pf (k_cfg c) (k_chroms c) (k_user c))
-      || negb (lines_eqb l (list_run list_entry_fixed pf (k_cfg c) (k_chroms c) (k_user c)))
+  | Some l => negb (k_ok c) || lines_eqb l (list_fixed (k_cfg c) (k_chroms c) (k_user c))
   end.
 (* the list agrees with the written BAM records *)
 Definition L1list (c : ccase) :=
@@ -99,7 +91,6 @@ Definition L1list (c : ccase) :=
 (* unit stream: (cfg, samples, alignments, implementation's tags) *)
 Definition U_L2 (u : config * list sample_in * list aln * list tags3) :=
   let '(cfg, samples, alns, tags) := u in
-  ambiguous cfg [mkChrom samples alns] ||
   list_eqb tags_eqb (map (tag_aln cfg (prepare cfg samples)) alns) tags.
 Definition U_L1 (u : config * list sample_in * list aln * list tags3) :=
   let '(cfg, samples, alns, tags) := u in
@@ -323,7 +314,7 @@ def nontrivial(res):
 
 
 CHECKS = {"L1cons": "L1cons", "L1tag": "L1tag", "L1swap": "L1swap", "L1list": "L1list", "L2": "L2", "L2list": "L2list",
-          "NOTAMB": "NOTAMB", "CURRENT": "CURRENT", "LEAK": "LEAK"}
+          "NOTAMB": "NOTAMB", "OLDRULE": "OLDRULE"}
 
 
 def check_cases(ctx, cases, label, report=True):
@@ -378,11 +369,9 @@ def check_cases(ctx, cases, label, report=True):
         if r["rc"] != 0:
             ctx.tally("cli.error_exit")
         if "NOTAMB" in fails:
-            ctx.tally("cli.l2_order_free(F7)")
-        if "CURRENT" in fails:
-            ctx.tally("cli.matches_repaired_region_rule_only")
-        if "LEAK" in fails:
-            ctx.tally("cli.matches_repaired_list_rule_only")
+            ctx.tally("cli.group_with_tied_phase_sets")
+        if "OLDRULE" in fails:
+            ctx.tally("cli.matches_old_region_rule_only")
     return out
 
 
@@ -653,14 +642,14 @@ def run(ctx):
     for e in ev[:1] + ev[-2:]:
         ctx.sample({"opts": e["case"]["opts"], "ploidy": e["case"]["ploidy"], "input_alignments": len(e["res"]["inp"]),
                     "output_records": len(e["res"]["out"]), "tagged": sum(1 for x in e["res"]["out"] if x["tags"][0] is not None),
-                    "failed_checks": sorted(e["fails"] - {"NOTAMB", "CURRENT", "LEAK"})})
+                    "failed_checks": sorted(e["fails"] - {"NOTAMB", "OLDRULE"})})
     l2 = report_cli(ctx, ev)
     if ul2 or l2:
         ctx.disagreements_checked += len(ul2) + len(l2)
         if ul2:
             ctx.l2_disagreement("Haplotag.prepare/tag_aln = prepare_haplotag_information/attempt_add_phase_information (L2)", ul2)
         if l2:
-            ctx.l2_disagreement("Haplotag.run_current|run_fixed = output BAM / haplotag list (L2)",
+            ctx.l2_disagreement("Haplotag.run_fixed/list_fixed = output BAM / haplotag list (L2)",
                                 [{"what": x["what"], "failed": x["failed"], "opts": x["case"]["opts"]} for x in l2])
         if not any(v["found_input"] for v in ctx.violations):
             # wider seeded search for an input that violates the property text (L1 evaluated in Coq)
@@ -674,7 +663,7 @@ def replay(ctx, data):
         ev = check_cases(ctx, [data["case"]], "replay")
         l2 = report_cli(ctx, ev, shrink=False)
         if l2:
-            ctx.l2_disagreement("Haplotag.run_current|run_fixed = output BAM / haplotag list (L2)", [x["what"] for x in l2])
+            ctx.l2_disagreement("Haplotag.run_fixed/list_fixed = output BAM / haplotag list (L2)", [x["what"] for x in l2])
     elif data.get("kind") == "unit":
         srows, sreads, cfg, alns = data["unit"]
         srows = [[(p, h, None if ph is None else (ph[0], ph[1])) for p, h, ph in rows] for rows in srows]
